@@ -285,3 +285,74 @@ def p_maskselect(ex, path, a, mask):
 
 
 PRIMS["__maskselect__"] = p_maskselect
+
+
+@prim("warnings.warn")
+def p_warn(ex, path, *a, **k):
+    ex.__dict__.setdefault("warnings", []).append(a[0] if a else None)
+    return None
+
+
+# ---- numpy Generator methods (explicit rng objects of experimental/datasets.py): same range contracts --------------------
+@prim("rng.binomial")
+def p_rng_binomial(ex, path, n=None, p=None, size=None):
+    return PRIMS["np.random.binomial"](ex, path, n=n, p=p, size=size)
+
+
+@prim("rng.normal")
+def p_rng_normal(ex, path, loc=0.0, scale=1.0, size=None):
+    return PRIMS["np.random.normal"](ex, path, loc=loc, scale=scale, size=size)
+
+
+@prim("rng.choice")
+def p_rng_choice(ex, path, a, size=None, replace=True, p=None):
+    return PRIMS["np.random.choice"](ex, path, a, size=size, replace=replace, p=p)
+
+
+@prim("rng.shuffle")
+def p_rng_shuffle(ex, path, x):
+    """in-place permutation: the multiset of values (all the contracts talk about) is unchanged"""
+    _rng_log(ex, "rng.shuffle")
+    ex.__dict__.setdefault("shuffled", []).append(x)
+    return None
+
+
+@prim("np.random.default_rng")
+def p_default_rng(ex, path, *a, **k):
+    return Obj("Generator")
+
+
+_repeat_arange = PRIMS["np.repeat"]
+
+
+@prim("np.repeat")
+def p_repeat_general(ex, path, a, repeats=None):
+    """np.repeat(values, repeats) for a short concrete-length list of values: block i holds repeats[i] copies of values[i]"""
+    a_t = as_tensor(ex, path, a) if not isinstance(a, T) else a
+    r_t = as_tensor(ex, path, repeats) if not isinstance(repeats, T) else repeats
+    if getattr(a_t, "is_arange", False) and not (r_t.ndim == 1 and r_t.axes[0].concrete()):
+        return _repeat_arange(ex, path, a_t, r_t)
+    if not (r_t.ndim == 1 and r_t.axes[0].concrete() and a_t.ndim == 1):
+        raise Unsupported("np.repeat")
+    m = r_t.axes[0].size
+    if a_t.axes[0].concrete() and a_t.axes[0].size != m:
+        ex.oblige("np.repeat: len(repeats) == len(a)", path, __import__("z3").BoolVal(False), "precondition")
+    vals = [a_t.elem(i) for i in range(m)]
+    reps = [toI(r_t.elem(i)) for i in range(m)]
+    for i in range(m):
+        ex.oblige(f"np.repeat: repeats[{i}] >= 0", path, reps[i] >= 0, "precondition")
+    offs = [IntVal(0)]
+    for r_ in reps:
+        offs.append(offs[-1] + r_)
+    total = offs[-1]
+
+    def elem(k):
+        k = toI(k)
+        res = vals[-1]
+        for i in range(m - 2, -1, -1):
+            res = ite(k < offs[i + 1], vals[i], res)
+        return res
+    from z3 import simplify as _simp
+    t = T((Axis("repeat", _simp(total)),), elem, kind=a_t.kind, prov="fresh")
+    t.repeat_parts = list(zip(vals, reps))
+    return t
